@@ -84,6 +84,32 @@ CLAIMED = {
         note="Trusted: TLC, net/url fragment decoding, the harness's own pointer escaper / percent-encoder.",
         technique="TLA+ spec (Pointer.tla + Resolve.tla) model-checked with TLC; behaviours replayed on the real code",
         design="6/C17"),
+    "C05": dict(
+        text="Codec.tla models Marshal on the abstract syntax (which keywords are emitted: omitempty drops nil and empty slices/maps "
+             "except those routed through the shadow struct) and Unmarshal; TLC checks on every field state, nested and in pairs, "
+             "that the round trip keeps the L0 meaning (Eval verdict vector) and that marshaling is idempotent. The harness builds "
+             "the same Schema values as Go literals and checks emitted key set = prediction, byte-identical second marshal, and "
+             "equal verdict vectors of value, round trip and L0.",
+        note="Trusted: TLC, harness literal builder, encoding/json. Document-side normalisations (2.0 -> 2, boolean forms) are "
+             "covered through C01/C02/C18 replays (Unmarshal route) and the raw-document table of the thorough tier.",
+        technique="TLA+ spec (Codec.tla Mar/Unm + Eval) model-checked with TLC; behaviours replayed on the real Marshal/Unmarshal/Validate",
+        design="6/C05"),
+    "C18": dict(
+        text="L0: the validity relation never mentions non-asserting or unknown keywords, and a document key is a keyword only if "
+             "it is exactly the keyword; Codec.tla's ReadAsKeyword models the decoder's field matching. TLC checks decoration "
+             "inertness on base schemas x decorations at root and subschema; every decorated document is replayed through the real "
+             "Unmarshal -> Resolve -> Validate and compared with the undecorated base's L0 verdicts.",
+        note="Trusted: TLC, encoding/json.",
+        technique="TLA+ spec (Codec.tla key matching + Eval) model-checked with TLC; behaviours replayed on the real code",
+        design="6/C18"),
+    "C19": dict(
+        text="L0 KeyOrder (listed names present, in list order, then the rest ascending by bytes; duplicates are an error) vs L1 "
+             "orderedProperties (processed-set algorithm); TLC checks L1 = L0 for all property sets and PropertyOrder lists of the "
+             "universe; every case is replayed: key order token-scanned from the real bytes, nested order, 30 repeated marshals "
+             "byte-equal under randomised map iteration.",
+        note="Trusted: TLC, pools.py byte-order table, encoding/json token scanner.",
+        technique="TLA+ spec (Codec.tla KeyOrder) model-checked with TLC; behaviours replayed on the real Marshal",
+        design="6/C19"),
 }
 
 NOT_YET = "check not built yet in this round (work in progress; see DESIGN.md section 11)"
